@@ -209,7 +209,7 @@ pub fn check(c: &Case) -> Verdict {
             break;
         }
     }
-    let (recs, _, _) = run_plan(c, plan, hard.is_some());
+    let (recs, _, _) = run_plan(c, plan.clone(), hard.is_some());
     // classification: does the first fault land inside a construct?
     let first_at = faults.first().map(|f| f.0).unwrap_or(0);
     let off = offsets.get(first_at).copied().unwrap_or(0);
@@ -249,6 +249,21 @@ pub fn check(c: &Case) -> Verdict {
                             v.fail = Some(format!("the I/O error does not carry the injected kind/marker: {:?}", m));
                         }
                     }
+                    // calls made AFTER the error (the source works again): the reader may be finished
+                    // (Eof for ever - what it does today) or may resume exactly where the fault-free run
+                    // goes on; anything else is an event fabricated from partial data
+                    if v.fail.is_none() {
+                        let (recs2, _, _) = run_plan(c, plan.clone(), false);
+                        if let Some(k2) = recs2.iter().position(|r| matches!(r.ev, Ev::Io(_))) {
+                            let post = &recs2[k2 + 1..];
+                            let finished = post.iter().all(|r| matches!(r.ev, Ev::Eof));
+                            let resumed = post.iter().zip(base[k2.min(base.len())..].iter()).all(|(a, b)| a.ev == b.ev && a.pos == b.pos) && !post.is_empty();
+                            if !finished && !resumed {
+                                v.fail = Some(format!("after the I/O error (injected {:?} at refill {:?}) further calls returned {} - neither Eof nor the continuation of the fault-free run: events fabricated from partial data | cfg={} cuts={:?} | fault-free: {}", kind_of(kind), faults, show_recs(post), cfg_show(c.cfg), c.cuts, show_recs(&base)));
+                            }
+                            v.classes.push("calls-after-the-io-error");
+                        }
+                    }
                 }
             }
         }
@@ -263,11 +278,19 @@ fn group(input: &[u8], cfg: u8, cuts: Vec<usize>, asynch: bool, pend: Vec<u8>, r
     let (_, ncalls, _) = run_plan(&proto, FaultPlan::none(), false);
     let mut out = vec![];
     for at in 0..ncalls {
-        for (kind, rep) in [(0u8, 1u8), (0, 2), (0, 3), (1, 1), (2, 1), (3, 1), (4, 1)] {
+        // `at % 11 == 5`: a long burst of interrupts at one refill ("any number of times")
+        let burst: &[(u8, u8)] = if at % 11 == 5 { &[(0, 130), (0, 250)] } else { &[] };
+        for (kind, rep) in [(0u8, 1u8), (0, 2), (0, 3), (1, 1), (2, 1), (3, 1), (4, 1)].iter().chain(burst.iter()).copied() {
             let mut c = proto.clone();
             c.faults = vec![(at, kind, rep)];
             out.push(c);
         }
+    }
+    if ncalls > 0 && extra_multi > 0 {
+        // one interrupt before EVERY refill of the run (many interrupts inside one long token)
+        let mut c = proto.clone();
+        c.faults = (0..ncalls).map(|k| (k, 0u8, 1u8)).collect();
+        out.push(c);
     }
     for _ in 0..extra_multi {
         if ncalls == 0 {
